@@ -158,6 +158,30 @@ def check(case):
                            "step %d %r; history %r" % (i, op,
                                                        history[:i + 1]),
                            labels=w.labels)
+        elif k == "p":
+            # the control-traffic pump read(max, 0): processes pending
+            # KeyUpdate / ticket / authentication messages and hands over at
+            # most ``max`` bytes, the rest stays buffered for later reads
+            _, side, mx = op
+            o = sc.do_read(p, side, mx, 0)
+            if o.state == "exc":
+                if isinstance(o.exc, TLSRemoteAlert) or p.conn(side).closed:
+                    continue
+                return bad("read-fails:%s" % describe_exc(o.exc),
+                           "step %d %r; history %r" % (i, op,
+                                                       history[:i + 1]),
+                           labels=w.labels)
+            if o.state == "done":
+                got = bytes(o.value)
+                if len(got) > mx:
+                    return bad("read-returns-more-than-max",
+                               "read(max=%d, min=0) returned %d bytes; "
+                               "history %r" % (mx, len(got),
+                                               history[:i + 1]),
+                               labels=w.labels)
+                r = fifo_check(w, side, got, "pump")
+                if r:
+                    return r
         elif k == "ku":
             if w.v != (3, 4):
                 continue
@@ -397,6 +421,7 @@ def op_strategy():
         st.tuples(st.just("r"), side),
         st.tuples(st.just("ku"), side, st.booleans()),
         st.tuples(st.just("ku"), side, st.booleans()),
+        st.tuples(st.just("p"), side, st.sampled_from([0, 0, 1, 7])),
         st.tuples(st.just("pha")),
         st.tuples(st.just("hb"), side, st.sampled_from(
             [0, 1, 16, 300, 16365, 16364]),
@@ -438,6 +463,12 @@ def explicit(tier, seed):
     yield {"v": "tls13", "ops": [["pha"], ["pha"], ["w", "c", 5],
                                  ["r", "c"], ["r", "s"], ["ku", "c", False],
                                  ["w", "c", 9], ["r", "s"]]}
+    # the zero-byte pump with data right behind the control message
+    for v in ("tls13", "tls12"):
+        yield {"v": v, "ops": [["ku", "c", False], ["w", "c", 50],
+                               ["p", "s", 0], ["r", "s"], ["pha"],
+                               ["w", "s", 9], ["p", "c", 0], ["p", "c", 1],
+                               ["r", "c"], ["r", "s"]]}
     # (the last three fill a record exactly / to one byte short)
     for n, pad in ((0, 16), (1, 16), (300, 100), (5, 15), (5, 0),
                    (16365, 16), (16364, 16), (16349, 32)):
